@@ -15,7 +15,9 @@ PROP = "C17"
 LEVEL = "fault_enumeration"
 BUDGET = {"quick": 170, "thorough": 1500}
 
-PSEUDO = re.compile(r"^<")      # block scopes (<if>, <else>, <while>) and <native code>#... are not functions or methods
+# block scopes (<if>, <else>, <while>, ...) and <native code>#... are not functions or methods; a label that merely starts with
+# `<` because the project lives in a directory called `<drafts>` is one
+PSEUDO = re.compile(r"^<[a-z ]+>(#|$)")
 KNOWN_ARITH = "C17-arith-overflow-panics"
 
 
@@ -39,9 +41,15 @@ def mk_env(rng):
     env = {"mode": rng.choice(["run", "ce"]), "streams": rng.choice(["pipes", "one"]), "seed": rng.hexbytes(16), "seed2": rng.hexbytes(16),
            "gc": "%d:%d" % (rng.below(1 << 30), ppm) if ppm else None, "rules": stream_rules(rng) if rng.chance(2, 3) else []}
     # where the project lives: the path ends up in every frame label (file#function)
-    env["subdir"] = rng.weighted([(None, 5), ("job#42", 2), ("sp ace", 1), ("é#x", 1)])
+    env["subdir"] = rng.weighted([(None, 5), ("job#42", 2), ("sp ace", 1), ("é#x", 1), ("<drafts>", 1)])
     # command-line options that must not change the verdict (`run` only)
-    env["flags"] = rng.weighted([([], 6), (["--profile"], 1), (["--no-pb"], 1), (["-X", "8388608"], 1)])
+    env["flags"] = rng.weighted([([], 12), (["--profile"], 2), (["--no-pb"], 2), (["-X", "8388608"], 2), (["--verbose"], 1)])
+    if "--verbose" in env["flags"]:
+        env["streams"] = "pipes"      # log records go to stdout; they are filtered out of it, which needs the streams apart
+    env["vars"] = rng.weighted([({}, 6), ({"RUST_BACKTRACE": "1"}, 1), ({"RUST_BACKTRACE": "full"}, 1)])
+    # the artefact of an imported module cannot be written (disk full, I/O error): the command may fail, it may not panic
+    if rng.chance(1, 8):
+        env["hard"] = {"id": "h", "call": "write", "pat": "*.mmm", "nth": str(rng.range(1, 3)), "act": "errno:" + rng.choice(["ENOSPC", "EIO"])}
     # what an earlier build left behind at the artefact paths
     if rng.chance(1, 3):
         env["dirty"] = {"kind": rng.choice(["longer", "shorter", "other_program", "garbage"]), "fill": rng.hexbytes(8)}
@@ -139,7 +147,9 @@ def run_case(case):
     r = gens.render(case["gen"])
     files, expect, stack = r["files"], [e[1] for e in r["expect"]], r["stack"]
     env = case["env"]
-    plan = {"seed": env["seed"], "rules": env["rules"]}
+    plan = {"seed": env["seed"], "rules": env["rules"] + ([env["hard"]] if env.get("hard") else [])}
+    xenv = dict(env.get("vars") or {})
+    verbose = "--verbose" in (env.get("flags") or [])
     sub = env.get("subdir")
     pre = (sub + "/") if sub else ""
     if sub:
@@ -151,15 +161,17 @@ def run_case(case):
         pipeline.place_dirty(world, env, pipeline.module_artefacts(files, pre + "main.ms"))
     procs = []
     if env["mode"] == "run":
-        p = core.run_cmd(world, ["run", pre + "main.ms", "-q"] + list(env.get("flags") or []), plan=plan, gc=env["gc"], streams=env["streams"])
+        p = core.run_cmd(world, ["run", pre + "main.ms"] + ([] if verbose else ["-q"]) + list(env.get("flags") or []), plan=plan, gc=env["gc"],
+                         streams=env["streams"], extra_env=xenv)
         procs.append(p)
     else:
-        c = core.run_cmd(world, ["compile", pre + "main.ms", "--quick"], plan={"seed": env["seed"], "rules": []})
+        c = core.run_cmd(world, ["compile", pre + "main.ms", "--verbose" if verbose else "--quick"], plan={"seed": env["seed"], "rules": []}, extra_env=xenv)
         procs.append(c)
         if c["rc"] != 0:
             p = c
         else:
-            p = core.run_cmd(world, ["execute", pre + "main.mmm"], plan={"seed": env["seed2"], "rules": env["rules"]}, gc=env["gc"], streams=env["streams"])
+            p = core.run_cmd(world, ["execute", pre + "main.mmm"], plan={"seed": env["seed2"], "rules": env["rules"]}, gc=env["gc"], streams=env["streams"],
+                             extra_env=xenv)
             procs.append(p)
     st = core.stats_of(procs, [env["rules"]] * len(procs))
     spec = case["gen"]["spec"]
@@ -179,6 +191,12 @@ def run_case(case):
         pr["stale_artefacts_present"] = 1
     st["probes"] = pr
     out = core.text(p["out"])
+    if verbose and env["mode"] == "run":
+        import modelcheck
+        out = modelcheck.program_output(p, env)
+        pr["verbose_logging_on"] = 1
+    if xenv:
+        pr["environment_variable_RUST_BACKTRACE"] = 1
     if "--profile" in (env.get("flags") or []) and env["mode"] == "run":
         # the profile report is appended to stdout after the program ended; it is not program output
         cut = out.find("\nRuntime Profile:")
@@ -192,6 +210,15 @@ def run_case(case):
                 "stats": st, "detail": {"program": files, "rc": p["rc"], "stdout": out[-2500:], "stderr": core.text(p["err"])[-2500:],
                                         "expected_stdout": expect, "expected_stack": stack}}
 
+    if any(e["rule"] == "h" for q in procs for e in q["events"]):
+        # an artefact could not be written: any clean failure is acceptable, a panic or a success is not
+        pr["artefact_write_failed"] = 1
+        e_all = core.text(p["err"]) + out
+        if p["rc"] == 0:
+            return fail("fault-ignored", "exit status 0 although an artefact could not be written and the program must fail anyway")
+        if p["rc"] < 0 or p["rc"] == 101 or "panicked at" in e_all:
+            return fail("panic", "internal panic (exit %d) after an artefact could not be written: %s" % (p["rc"], [l for l in e_all.split("\n") if "panicked" in l][:1]))
+        return {"ok": True, "stats": st}
     if p["args"][0] == "compile" or (p["args"][0] == "run" and "Did not compile successfully" in core.text(p["err"])):
         return fail("compile-error", "the generated program was rejected by the compiler: %s" % out[-500:])
     if p["timeout"]:
@@ -212,7 +239,7 @@ def run_case(case):
         # order on the global event sequence: everything written to fd 1 precedes the report on fd 2
         w1 = [e["seq"] for e in p["events"] if e["call"] == "write" and e["path"] == "<stdout>" and e["res"] > 0]
         w2 = [e["seq"] for e in p["events"] if e["call"] == "write" and e["path"] == "<stderr>" and e["res"] > 0]
-        if w1 and w2 and max(w1) > min(w2) and "--profile" not in (env.get("flags") or []):
+        if w1 and w2 and max(w1) > min(w2) and "--profile" not in (env.get("flags") or []) and not verbose:
             return fail("order", "program output was written after the error report began (event %d > %d)" % (max(w1), min(w2)))
     else:
         text = out
@@ -254,7 +281,7 @@ def shrink(case):
         c = copy.deepcopy(case)
         c["env"]["streams"] = "pipes"
         yield c
-    for key in ("subdir", "dirty", "flags"):
+    for key in ("subdir", "dirty", "flags", "vars", "hard"):
         if env.get(key):
             c = copy.deepcopy(case)
             c["env"][key] = None
